@@ -6,42 +6,52 @@
 (*   JOp jset/jrm   change mem only        JOp jflush (completed)   dur' = mem                                *)
 (*   Close          the destructor's flush completed: dur' = mem                                              *)
 (*   Crash(o)       pf' = (o = jflush)     Recovered(r)   r = dur, or r = mem if pf  - as a WHOLE map         *)
+(* Background flusher (second actor, held by the driver at its first file operation):                          *)
+(*   JOp jbg (v = 1)  the flusher has serialised the store while the application thread was idle: bimg' = mem,  *)
+(*                    bok' = TRUE - its flush is "in progress" until it ends or until another flush completes   *)
+(*                    (JOp jflush / Close: bok' = FALSE - an image OLDER than a completed flush is not           *)
+(*                    admissible any more: the contents of the last completed flush are never lost)              *)
+(*   JOp jbgdone      the application thread saw the flusher's pass end: if bok, its flush is the last completed *)
+(*                    one (dur' = bimg).      Recovered(r): r = dur, or r = mem if pf, or r = bimg if bok.        *)
 EXTENDS TraceBase, Integers
 
 CONSTANT NK
-VARIABLES dur, mem, pf, st
-vars == <<l, dur, mem, pf, st>>
+VARIABLES dur, mem, pf, st, bimg, bok
+vars == <<l, dur, mem, pf, st, bimg, bok>>
 
 Keys == 1..NK
 Empty == [k \in Keys |-> 0]
 
-Init == l = 1 /\ dur = Empty /\ mem = Empty /\ pf = FALSE /\ st = "idle"
+Init == l = 1 /\ dur = Empty /\ mem = Empty /\ pf = FALSE /\ st = "idle" /\ bimg = Empty /\ bok = FALSE
 
-EvBegin == IsEv("Begin") /\ Ev.store = "json" /\ dur' = Empty /\ mem' = Empty /\ pf' = FALSE /\ st' = "up"
-EvReset == IsEv("Reset") /\ dur' = Empty /\ mem' = Empty /\ pf' = FALSE /\ st' = "idle"
-EvEnd   == IsEv("End") /\ UNCHANGED <<dur, mem, pf, st>>
+EvBegin == IsEv("Begin") /\ Ev.store = "json" /\ dur' = Empty /\ mem' = Empty /\ pf' = FALSE /\ st' = "up" /\ bimg' = Empty /\ bok' = FALSE
+EvReset == IsEv("Reset") /\ dur' = Empty /\ mem' = Empty /\ pf' = FALSE /\ st' = "idle" /\ bimg' = Empty /\ bok' = FALSE
+EvEnd   == IsEv("End") /\ UNCHANGED <<dur, mem, pf, st, bimg, bok>>
 
 EvJOp == /\ IsEv("JOp") /\ st = "up"
-         /\ CASE Ev.op = "jset"   -> mem' = [mem EXCEPT ![Ev.k] = Ev.v] /\ UNCHANGED dur
-              [] Ev.op = "jrm"    -> mem' = [mem EXCEPT ![Ev.k] = 0] /\ UNCHANGED dur
-              [] Ev.op = "jflush" -> dur' = mem /\ UNCHANGED mem
+         /\ CASE Ev.op = "jset"   -> mem' = [mem EXCEPT ![Ev.k] = Ev.v] /\ UNCHANGED <<dur, bimg, bok>>
+              [] Ev.op = "jrm"    -> mem' = [mem EXCEPT ![Ev.k] = 0] /\ UNCHANGED <<dur, bimg, bok>>
+              [] Ev.op = "jflush" -> dur' = mem /\ bok' = FALSE /\ UNCHANGED <<mem, bimg>>
+              [] Ev.op = "jbg"    -> IF Ev.v = 1 THEN bimg' = mem /\ bok' = TRUE /\ UNCHANGED <<dur, mem>>
+                                                 ELSE UNCHANGED <<dur, mem, bimg, bok>>
+              [] Ev.op = "jbgdone" -> dur' = (IF bok THEN bimg ELSE dur) /\ bok' = FALSE /\ UNCHANGED <<mem, bimg>>
               [] OTHER            -> FALSE
          /\ UNCHANGED <<pf, st>>
 
 EvCrash == /\ IsEv("Crash")
            /\ \/ st = "up" /\ pf' = (Ev.op = "jflush")
               \/ st = "down" /\ Ev.op = "nop" /\ UNCHANGED pf
-           /\ st' = "down" /\ UNCHANGED <<dur, mem>>
+           /\ st' = "down" /\ UNCHANGED <<dur, mem, bimg, bok>>
 
-EvClose == IsEv("Close") /\ st = "up" /\ dur' = mem /\ st' = "down" /\ pf' = FALSE /\ UNCHANGED mem
+EvClose == IsEv("Close") /\ st = "up" /\ dur' = mem /\ st' = "down" /\ pf' = FALSE /\ bok' = FALSE /\ UNCHANGED <<mem, bimg>>
 
 EvRecovered ==
     /\ IsEv("Recovered") /\ st = "down"
     /\ Ev.ok /\ Ev.extra = 0 /\ Len(Ev.vals) = NK
     /\ LET rec == [k \in Keys |-> Ev.vals[k]] IN
-       /\ rec = dur \/ (pf /\ rec = mem)
+       /\ rec = dur \/ (pf /\ rec = mem) \/ (bok /\ rec = bimg)
        /\ dur' = rec /\ mem' = rec
-    /\ pf' = FALSE /\ st' = "up"
+    /\ pf' = FALSE /\ st' = "up" /\ bok' = FALSE /\ UNCHANGED bimg
 
 Next == EvBegin \/ EvReset \/ EvEnd \/ EvJOp \/ EvCrash \/ EvClose \/ EvRecovered
 Spec == Init /\ [][Next]_vars
